@@ -1,5 +1,6 @@
 (* SelectorFacts.v -- proofs about the selector model *)
 From CssV Require Import Base Gen.PyTables Tokenizer Gen.SelConsts Selector.
+From CssV Require Upto UptoFacts.
 
 (* ---- the regenerated tables are what Python's `in` / `==` compute on the regenerated strings *)
 Fixpoint substr (n h : str) : bool :=
@@ -448,7 +449,7 @@ Proof. destruct x; [congruence|]. destruct dbl; reflexivity. Qed.
 Lemma HT_pseudo p : ok_pseudo p = true -> HT pv_csafe (r_pseudo p) (g_pseudo p) pv_csafe.
 Proof.
   destruct p as [dbl n|dbl n w e]; cbn [ok_pseudo r_pseudo g_pseudo]; intros H.
-  - apply andb_true_iff in H as [H _]. intros acc Hp. rewrite fold_left_app, pstep_colons by assumption. cbn [fold_left].
+  - intros acc Hp. rewrite fold_left_app, pstep_colons by assumption. cbn [fold_left].
     rewrite pstep_pseudo_ident by assumption. split; [reflexivity|].
     destruct (ident_facts n H) as (_ & _ & _ & _ & _ & _ & G). now apply csafe_colon_name.
   - do 3 (apply andb_true_iff in H; destruct H as [H ?]). apply negb_true_iff in H2.
@@ -895,6 +896,43 @@ Proof.
     + eauto using pres_trans.
 Qed.
 
+(* ---- str.lower() keeps identifiers identifiers (ASCII by arithmetic, the rest by a check of the generated table) *)
+Lemma lower_table_namechars :
+  forallb (fun kv => forallb namechar (snd kv) && negb (match snd kv with [] => true | _ => false end)) lower_table = true.
+Proof. vm_compute. reflexivity. Qed.
+Lemma assoc_lower_nc c tb :
+  forallb (fun kv : N * str => forallb namechar (snd kv) && negb (match snd kv with [] => true | _ => false end)) tb = true ->
+  namechar c = true -> forallb namechar (assoc_lower c tb) = true /\ assoc_lower c tb <> [].
+Proof.
+  induction tb as [|[k v] tb IH]; cbn [assoc_lower forallb snd]; intros H Hc.
+  - rewrite Hc. split; [reflexivity|discriminate].
+  - apply andb_true_iff in H as [H1 H2]. apply andb_true_iff in H1 as [H1 H3].
+    destruct (N.eqb k c); [|auto]. split; [exact H1|]. destruct v; [discriminate|discriminate].
+Qed.
+Lemma lower_char_nc c : namechar c = true -> forallb namechar (lower_char c) = true /\ lower_char c <> [].
+Proof.
+  intros Hc. unfold lower_char. destruct (N.ltb c 128) eqn:L.
+  - destruct (N.leb 65 c && N.leb c 90) eqn:U.
+    + apply andb_true_iff in U as [U1 U2]. apply N.leb_le in U1, U2. split; [|discriminate].
+      cbn [forallb]. rewrite andb_true_r. unfold namechar.
+      assert (A : N.leb 97 (c + 32) = true) by (apply N.leb_le; lia).
+      assert (B : N.leb (c + 32) 122 = true) by (apply N.leb_le; lia).
+      rewrite A, B. reflexivity.
+    + split; [|discriminate]. cbn [forallb]. rewrite Hc. reflexivity.
+  - apply assoc_lower_nc; [exact lower_table_namechars|exact Hc].
+Qed.
+Lemma lower_ident n : ident n = true -> ident (lower n) = true.
+Proof.
+  intros H. pose proof (ident_namechars n H) as Hf.
+  assert (F : forallb namechar (lower n) = true).
+  { clear H. induction n as [|c r IH]; [reflexivity|]. cbn [forallb] in Hf. apply andb_true_iff in Hf as [H1 H2].
+    unfold lower. cbn [flat_map]. rewrite forallb_app. fold (lower r). rewrite (proj1 (lower_char_nc c H1)), (IH H2).
+    reflexivity. }
+  destruct n as [|c r]; [discriminate|]. cbn [forallb] in Hf. apply andb_true_iff in Hf as [H1 _].
+  unfold lower in *. cbn [flat_map] in *. destruct (lower_char_nc c H1) as [_ Hne].
+  destruct (lower_char c) as [|x xs]; [congruence|]. cbn [app]. unfold ident. exact F.
+Qed.
+
 (* ---- pseudo-classes and pseudo-elements *)
 Lemma last_is_app2 c pre x : x <> [] -> last_is c (pre ++ x) = last_is c x.
 Proof.
@@ -1015,7 +1053,7 @@ Lemma pseudo_ok ns neg e b c d w q p : startok neg e = true -> ok_pseudo p = tru
              Some (bumped (after_pseudo neg p) (octx neg) (sp_pseudo p) b c d w q') /\ nb q' = true.
 Proof.
   intros He H. destruct p as [dbl n|dbl n ws l].
-  - cbn [ok_pseudo] in H. apply andb_true_iff in H as [H1 H2]. now apply pseudo_id_ok.
+  - cbn [ok_pseudo] in H. apply pseudo_id_ok; auto using lower_ident.
   - now apply pseudo_fn_ok.
 Qed.
 
@@ -1377,4 +1415,136 @@ Proof.
     { destruct Ha as [->|[->|[-> ->]]]; cbn [page_assign]; rewrite E; reflexivity. }
     rewrite X. exists seq. now apply page_rejected_keeps.
   - cbn [app page_assigns] in *. destruct (page_assign raising h0 b) as [h'|]; [|discriminate]. now apply IH.
+Qed.
+
+(* ================================================================== part 5: SelectorList *)
+
+Lemma tty_roundtrip t : tty_of_str (tty_name t) = t.
+Proof. destruct t; reflexivity. Qed.
+
+Lemma select_sel_toks ns ts :
+  select ns (map tok_pair (map to_tok ts)) = run ns (prepass ts).
+Proof.
+  unfold select. f_equal. f_equal. rewrite !map_map. rewrite <- (map_id ts) at 2. apply map_ext.
+  intros [t v]. unfold tok_pair, to_tok. cbn. now rewrite tty_roundtrip.
+Qed.
+
+Lemma render_nonempty ns x : Declared ns x -> sel_toks x <> [].
+Proof.
+  intros Hd E. unfold sel_toks in E. apply map_eq_nil in E.
+  destruct (specificity_correct_lemma ns x Hd) as [W _]. rewrite E in W. discriminate W.
+Qed.
+
+Definition mem_of (ns : ns_map) (x : selector) : option member :=
+  match run ns (prepass (render x)) with Some (Accepted b c d q) => Some (b, c, d, q) | _ => None end.
+
+Lemma member_spec ns x : Declared ns x -> exists q, mem_of ns x = Some (sp_selector x, q).
+Proof.
+  intros Hd. unfold mem_of. rewrite (prepass_render ns x Hd). destruct (run_glued ns x Hd) as (q & E). rewrite E.
+  destruct (sp_selector x) as [[b c] d]. exists q. reflexivity.
+Qed.
+
+Lemma last_app_single {A} (l : list A) (e d : A) : last (l ++ [e]) d = e.
+Proof. induction l as [|a l IH]; [reflexivity|]. cbn [app]. destruct (l ++ [e]) eqn:E; [destruct l; discriminate|]. exact IH. Qed.
+
+Lemma last_indep {A} (l : list A) d d' : l <> [] -> last l d = last l d'.
+Proof.
+  induction l as [|a l IH]; [congruence|]. intros _. destruct l as [|b l]; [reflexivity|].
+  change (last (a :: b :: l) d) with (last (b :: l) d). change (last (a :: b :: l) d') with (last (b :: l) d').
+  apply IH. discriminate.
+Qed.
+
+Lemma upto_member x rest : sep_free x = true ->
+  Upto.upto Upto.FListSep None (sel_toks x ++ comma_tok :: rest) = (sel_toks x ++ [comma_tok], rest).
+Proof.
+  unfold sep_free. intros H. apply andb_true_iff in H as [H _]. apply andb_true_iff in H as [Hc Hz].
+  unfold Upto.upto, Upto.upto_md. apply UptoFacts.upto_closed_run_lemma; [exact Hc|]. right.
+  change (Upto.c0 (Upto.mode_of Upto.FListSep None)) with (0, 0, 0)%Z.
+  destruct (Upto.after (0, 0, 0)%Z (sel_toks x)) as [[a b] c]. cbn in Hz.
+  repeat (apply andb_true_iff in Hz; destruct Hz as [Hz ?]).
+  apply Z.eqb_eq in Hz, H, H0. subst. reflexivity.
+Qed.
+
+Lemma upto_last_member x : sep_free x = true ->
+  Upto.upto Upto.FListSep None (sel_toks x) = (sel_toks x, []).
+Proof.
+  unfold sep_free. intros H. apply andb_true_iff in H as [H _]. apply andb_true_iff in H as [Hc Hz].
+  unfold Upto.upto, Upto.upto_md.
+  pose proof (UptoFacts.upto_closed_prefix md_list (sel_toks x) (0, 0, 0)%Z [] Hc) as P.
+  rewrite app_nil_r in P. cbn [Upto.upto_loop] in P. rewrite app_nil_r in P. exact P.
+Qed.
+
+Fixpoint members_of (ns : ns_map) (l : list selector) : list member :=
+  match l with [] => [] | x :: r => match mem_of ns x with Some m => m :: members_of ns r | None => members_of ns r end end.
+
+Lemma sl_step ns x f rest acc wf e comma_after :
+  Declared ns x -> sep_free x = true ->
+  (comma_after = true -> Upto.upto Upto.FListSep None (sel_toks x ++ comma_tok :: rest) = (sel_toks x ++ [comma_tok], rest)) ->
+  forall m, mem_of ns x = Some m ->
+  sl_loop (S f) ns (if comma_after then sel_toks x ++ comma_tok :: rest else sel_toks x) acc wf e =
+  sl_loop f ns (if comma_after then rest else []) (acc ++ [m]) wf (if comma_after then SL_comma else SL_none).
+Proof.
+  intros Hd Hs Hu m Hm. pose proof (render_nonempty ns x Hd) as Hnz.
+  assert (Hsel : select ns (map tok_pair (sel_toks x)) = Some (match m with (b, c, d, q) => Accepted b c d q end)).
+  { unfold sel_toks. rewrite select_sel_toks. unfold mem_of in Hm.
+    destruct (run ns (prepass (render x))) as [[|b c d q']|]; try discriminate. injection Hm as <-. reflexivity. }
+  revert Hsel. destruct comma_after; cbn [sl_loop]; intros Hsel.
+  - rewrite (Hu eq_refl). revert Hsel. destruct (sel_toks x) as [|t0 r0] eqn:Et; [congruence|]. intros Hsel.
+    cbn [app]. rewrite last_app_single. cbn [Tokenizer.val comma_tok]. rewrite eqs_refl.
+    rewrite app_comm_cons, removelast_last, Hsel. destruct m as [[[b c] d] q]. reflexivity.
+  - rewrite (upto_last_member x Hs).
+    unfold sep_free in Hs. apply andb_true_iff in Hs as [_ Hl]. apply negb_true_iff in Hl.
+    revert Hsel Hl. destruct (sel_toks x) as [|t0 r0] eqn:Et; [congruence|]. intros Hsel Hl.
+    assert (L : last r0 t0 = last (t0 :: r0) comma_tok).
+    { destruct r0 as [|a r]; [reflexivity|]. change (last (t0 :: a :: r) comma_tok) with (last (a :: r) comma_tok). apply last_indep. discriminate. }
+    rewrite L, Hl, Hsel. destruct m as [[[b c] d] q]. reflexivity.
+Qed.
+
+
+Lemma sl_members ns : forall sels fuel acc e,
+  sels <> [] -> Forall (fun x => Declared ns x /\ sep_free x = true) sels ->
+  (length (join_commas (map sel_toks sels)) < fuel)%nat ->
+  sl_loop fuel ns (join_commas (map sel_toks sels)) acc true e = Some (SLAccepted (acc ++ members_of ns sels)).
+Proof.
+  induction sels as [|x sels IH]; intros fuel acc e Hne Hall Hf; [congruence|].
+  inversion Hall as [|? ? [Hd Hs] Hall']; subst.
+  destruct (member_spec ns x Hd) as (q & Hm).
+  destruct fuel as [|f]; [inversion Hf|].
+  destruct sels as [|y sels].
+  - cbn [map join_commas members_of] in *. rewrite Hm.
+    rewrite (sl_step ns x f [] acc true e false Hd Hs ltac:(discriminate) _ Hm).
+    destruct f as [|f']; [pose proof (render_nonempty ns x Hd); destruct (sel_toks x); [congruence|cbn in Hf; lia]|].
+    reflexivity.
+  - change (join_commas (map sel_toks (x :: y :: sels))) with
+      (sel_toks x ++ comma_tok :: join_commas (map sel_toks (y :: sels))) in *.
+    rewrite (sl_step ns x f (join_commas (map sel_toks (y :: sels))) acc true e true Hd Hs
+               (fun _ => upto_member x _ Hs) _ Hm).
+    rewrite IH; [|discriminate|exact Hall'|rewrite app_length in Hf; cbn [length] in Hf; lia].
+    cbn [members_of]. rewrite Hm, <- app_assoc. reflexivity.
+Qed.
+
+Lemma members_specs ns sels : Forall (fun x => Declared ns x /\ sep_free x = true) sels ->
+  map fst (members_of ns sels) = map sp_selector sels.
+Proof.
+  induction 1 as [|x sels [Hd _] _ IH]; [reflexivity|]. cbn [members_of map].
+  destruct (member_spec ns x Hd) as (q & Hm). rewrite Hm. cbn [map fst]. now rewrite IH.
+Qed.
+
+Theorem selectorlist_specificities_lemma ns sels :
+  sels <> [] -> Forall (fun x => Declared ns x /\ sep_free x = true) sels ->
+  exists ms, sl_run ns (join_commas (map sel_toks sels)) = Some (SLAccepted ms) /\
+             map fst ms = map sp_selector sels.
+Proof.
+  intros Hne Hall. exists (members_of ns sels). split; [|now apply members_specs].
+  unfold sl_run. rewrite sl_members; auto.
+Qed.
+
+(* a rejected member rejects the list: once wf is false the result can only be SLRejected *)
+Lemma sl_false_rejects ns : forall fuel ts acc e r,
+  sl_loop fuel ns ts acc false e = Some r -> r = SLRejected.
+Proof.
+  induction fuel as [|f IH]; intros ts acc e r H; [discriminate|]. cbn [sl_loop] in H.
+  destruct (Upto.upto Upto.FListSep None ts) as [[|x run] rest].
+  - destruct e; injection H as <-; reflexivity.
+  - destruct (select ns _) as [[|b c d q]|]; [|eauto|discriminate]; eauto.
 Qed.
